@@ -24,6 +24,9 @@ func init() {
 		if err := c01w(cfg, emit); err != nil {
 			return err
 		}
+		if err := worldGen("C01", 200, 4000, genOpts{maxDepth: 4, urlWorld: true, kinds: []string{"urlnear", "urlnear", "none", "resource"}})(cfg, emit); err != nil {
+			return err
+		}
 		// as a server sees it: the same invocation has been received before with every proof embedded
 		ns := 240
 		if cfg.Thorough() {
@@ -38,7 +41,7 @@ func init() {
 	}
 	// C02: restricting caveats at every level, all three derivation rules, re-delegated attestations
 	c02 := worldGen("C02", 2000, 40000, genOpts{maxDepth: 5, sessions: true, sessionPct: 30, caveats: true, caveatPct: 60,
-		kinds: []string{"none", "none", "permute", "decoys", "resource", "ability", "dup", "nbf-ok", "twincap", "nearmiss"}})
+		kinds: []string{"none", "none", "permute", "decoys", "resource", "ability", "dup", "nbf-ok", "twincap", "nearmiss", "urlnear"}})
 	// a stratum of its own for re-delegated attestations (the `proof` caveat of the service's grant binds
 	// what the worker may attest)
 	c02att := worldGen("C02", 240, 5000, genOpts{minDepth: 1, maxDepth: 4, sessions: true, sessionPct: 100, attVariant: 4, caveats: true, caveatPct: 30,
@@ -46,13 +49,19 @@ func init() {
 	// and one for an unattested account token next to another account's attested one
 	c02two := worldGen("C02", 160, 3000, genOpts{minDepth: 1, maxDepth: 4, sessions: true, sessionPct: 100, attVariant: 14,
 		kinds: []string{"none", "none", "permute"}})
+	c02url := worldGen("C02", 200, 4000, genOpts{maxDepth: 4, urlWorld: true, caveats: true, caveatPct: 30, kinds: []string{"urlnear", "urlnear", "none"}})
 	gens["C02"] = func(cfg Config, emit Emit) error {
 		if err := c02(cfg, emit); err != nil {
+			return err
+		}
+		if err := c02url(cfg, emit); err != nil {
 			return err
 		}
 		if err := c02two(cfg, emit); err != nil {
 			return err
 		}
+		// a union of caveat readers must hand the policy what the first accepting member read, whatever it read before
+		emit("reqcraft", []string{"or", "-", "-"}, "crafted/or", true)
 		return c02att(cfg, emit)
 	}
 	// C04: a non-key issuer somewhere in the chain, every attestation variant, key resolver variants
@@ -105,6 +114,14 @@ func init() {
 			w.Invs = []int{w.Inv}
 			emit("serve", []string{"C05", mustJSON(w)}, "served/"+class, true)
 		})
+		// tokens the service issued itself (session attestations) can be revoked like any other
+		genWorlds(cfg, n/3, genOpts{minDepth: 1, maxDepth: 4, sessions: true, sessionPct: 100, properSession: true, kinds: []string{"revoke-att", "revoke-att", "none"}}, func(w *AWorld, class string) {
+			emit("access", []string{"C05", mustJSON(w)}, "session/"+class, true)
+			w2 := *w
+			w2.Services = []ASvc{{Can: w.Desc.Can, Result: "ok"}}
+			w2.Invs = []int{w.Inv}
+			emit("serve", []string{"C05", mustJSON(&w2)}, "served-session/"+class, true)
+		})
 		return nil
 	}
 	// C06: valid chains surrounded by decoys, permutations, duplicates, link-only proofs
@@ -124,6 +141,8 @@ func init() {
 		}
 		// the readers a capability is parsed with must not remember each other's verdicts
 		genDidRead(cfg, emit)
+		emit("reqcraft", []string{"or", "-", "-"}, "crafted/or", true)
+		genConv(emit)
 		// and the search as a server runs it (chains of several embedded delegations)
 		ns := 200
 		if cfg.Thorough() {
